@@ -99,8 +99,8 @@ CHECKS['C12'] = dict(
    tech='Rocq proof over regenerated kernels/read lists + two matcher models (chunk equivalence by induction); matcher correspondence; fast-vs-normal differential', ref='DESIGN.md sections 0.2 and 6 (C12)')
 CHECKS['C13'] = dict(
    text='Machine-checked theorems: every series produced by a state machine (Mealy machine: any state, any step) is causal, causality is closed under composition and '
-        'pointwise combination, hence each of the 25 modelled core series (sma, ema, wma, trima, roc, mom, var, wilders, dema, tema, macd line/signal/hist, rsi, atr, obv, '
-        'donchian x3, willr, stochastic %K, typical/median price - written as state machines in jesse\'s seeding/NaN conventions, exact rationals) computed on a prefix '
+        'pointwise combination, hence each of the 29 modelled core series (sma, ema, wma, trima, roc, mom, var, wilders, dema, tema, macd line/signal/hist, rsi, atr, obv, '
+        'donchian x3, willr, stochastic %K, typical/median price, money flow index, Keltner x3 - written as state machines in jesse\'s seeding/NaN conventions, exact rationals) computed on a prefix '
         'equals the prefix of the series on the whole input, for every period and input. The models are evaluated in Coq against jesse.indicators on every run. All '
         '~168 public indicators with a sequential mode are additionally put through a prefix monitor on the implementation.',
    note='Trusted: Coq kernel + vm_compute; hand-written Model/Indicators.v tied by value correspondence (relative 1e-8); harness/c13.py, ind.py. The theorem covers the '
@@ -109,7 +109,7 @@ CHECKS['C13'] = dict(
 CHECKS['C14'] = dict(
    text='Machine-checked theorems: for the shape of the public indicator functions - slice the candles to the warm-up window unless sequential, compute ANY series F, '
         'return it or its last entry - the single value is the last entry of the sequential result on inputs within the window, and on longer inputs it is the last entry '
-        'of the sequential result on the trailing window; every state machine, and each of the 25 modelled core series, returns exactly one entry per input. Which of '
+        'of the sequential result on the trailing window; every state machine, and each of the 29 modelled core series, returns exactly one entry per input. Which of '
         'the ~170 indicator files literally have that shape is classified syntactically on /repo each run; the core models are evaluated in Coq against jesse.indicators; '
         'and a monitor checks all public indicators (every field: one entry per candle, last = single, long input = trailing window) at lengths below/at/above 240.',
    note='Trusted: Coq kernel + vm_compute; hand-written Model/Indicators.v; harness/c14.py (AST shape classifier), ind.py. One-entry-per-candle is proved for the modelled '
@@ -118,8 +118,8 @@ CHECKS['C14'] = dict(
 CHECKS['C15'] = dict(
    text='Machine-checked theorems over textbook definitions of the core indicators written as state machines in exact rationals: RSI in [0,100] for every series and period, '
         'Williams %R in [-100,0] and stochastic %K in [0,100] for every series of candles with low <= close <= high, Donchian lower <= middle <= upper and the channel '
-        'encloses every candle of the window, ATR and variance never negative (variance via n*sum(x^2) >= (sum x)^2, proved by induction), SMA and EMA scale linearly with '
-        'price. The definitions are evaluated in Coq against jesse.indicators (that is the agreement-with-an-independent-implementation clause, 25 series), and range, '
+        'encloses every candle of the window, ATR and variance never negative (variance via n*sum(x^2) >= (sum x)^2, proved by induction), the money flow index in [0,100] for candles with non-negative prices and volumes, Keltner lower <= middle <= upper (defined at the same indices, any multiplier >= 0), and SMA, EMA, WMA, TRIMA, Wilder\'s smoothing, DEMA, TEMA and the three MACD series scale linearly with '
+        'price. The definitions are evaluated in Coq against jesse.indicators (that is the agreement-with-an-independent-implementation clause, 29 series), and range, '
         'ordering, selector and scaling monitors run on the implementation for the whole list of the property.',
    note='Trusted: Coq kernel + vm_compute; hand-written Model/Indicators.v tied by value correspondence (relative 1e-8); harness/c15.py, ind.py. Indicators that need '
         'square roots (stddev, Bollinger, Keltner with non-EMA, CCI constant) and the ADX family are monitored, not modelled: partial. Axiom-free.',
